@@ -118,3 +118,9 @@ Proof.
   - intros. eapply LockInv_step; eauto.
   - pose proof (LockInv_init c ws). rewrite E in H. auto.
 Qed.
+
+Theorem sched_mutex_holders : forall ps c ws sched t1 t2 th1 th2 k,
+  let st := run ps c (init_state c ws) sched in
+  nth_error (snd st) t1 = Some th1 -> nth_error (snd st) t2 = Some th2 ->
+  In k (map snd (held th1)) -> In k (map snd (held th2)) -> t1 = t2.
+Proof. intros. eapply LockInv_mutex; eauto. apply sched_mutex. Qed.
